@@ -44,7 +44,7 @@ Definition is_line_at (nlb : byte) (content pre line post : bytes) (p : N) : Pro
   (length pre <= N.to_nat p)%nat /\
   (N.to_nat p < length pre + length line \/ (N.to_nat p = length pre + length line /\ post <> []))%nat.
 
+(* "the text of that line (left-trimmed, truncated at 200 bytes)": the indentation does not count *)
 Definition shown (line : bytes) : bytes :=
-  if Nat.ltb 200 (length line)
-  then skipn (lead_blanks (firstn 197 line)) (firstn 197 line) ++ dots
-  else skipn (lead_blanks line) line.
+  let t := skipn (lead_blanks line) line in
+  if Nat.ltb 200 (length t) then firstn 197 t ++ dots else t.
